@@ -7,7 +7,7 @@ Exit codes: 0 property held on everything explored; 1 with `VIOLATION property=<
 """
 import json, os, re, subprocess, sys, time, hashlib, shutil
 
-ROOT = "/verif"
+ROOT = os.environ.get("VERIF_ROOT") or os.path.dirname(os.path.dirname(os.path.abspath(__file__)))
 BUILD = os.path.join(ROOT, ".build")
 SPEC = os.path.join(ROOT, "spec")
 HARNESS = os.path.join(ROOT, "harness")
@@ -120,10 +120,10 @@ class Ctx:
         acts["__never_taken__"] = zero
         return gen, dist, acts
 
-    def tlc_mc(self, module, cfg, workers=8, timeout=1800, must_cover=(), subdir="mc", extra=(), simulate=None):
+    def tlc_mc(self, module, cfg, workers=8, timeout=1800, must_cover=(), subdir="mc", extra=(), simulate=None, coverage=True):
         """Exhaustive (or simulated) model check. Any invariant violation of the *spec* is a tool error:
         the spec is supposed to hold; it is the oracle."""
-        ex = ["-coverage", "1"] + list(extra)
+        ex = (["-coverage", "1"] if coverage else []) + list(extra)
         if simulate:
             ex += ["-simulate", simulate]
         rc, out, dt, logp = self._tlc(subdir, module, cfg, workers, timeout, ex, java="-Xss256m")
